@@ -34,10 +34,23 @@ BLOCKS = {
 }
 
 
-def generate(name, scratch):
+def generate(name, scratch, history='once'):
+    """history: 'once' = construct + main(); 'inspect-then-main' = GenerateEquations() to look at the lists, then main();
+    'regenerate' = main() to a draft file, raise the horizon, main() again."""
     text = BLOCKS[name][0]
     gen = IterativeMachineGenerator(text)
-    fname = os.path.join(scratch, 'gen_%s.py' % name.replace('-', '_'))
+    fname = os.path.join(scratch, 'gen_%s_%s.py' % (name.replace('-', '_'), history.replace('-', '_')))
+    if history == 'inspect-then-main':
+        gen.GenerateEquations()
+        gen.GenerateFunction()
+    elif history == 'regenerate':
+        gen.main(os.path.join(scratch, 'draft_%s.py' % name.replace('-', '_')))
+        gen.MaxTime = gen.MaxTime + 1
+        for i, (v, e) in enumerate(gen.Exogenous):
+            if e.startswith('[1., 2., 3.]'):
+                gen.Exogenous[i] = (v, '[1., 2., 3., 4.]')
+            if e.startswith('[0.5, 0.5, 0.5]'):
+                gen.Exogenous[i] = (v, '[0.5, 0.5, 0.5, 0.5]')
     gen.main(fname)
     return gen, fname
 
@@ -49,15 +62,16 @@ def load(fname):
     return mod
 
 
-def case_run(name):
+def case_run(item):
+    name, history = item if isinstance(item, tuple) else (item, 'once')
     text, gain, prev, exo = BLOCKS[name]
     scratch = tempfile.mkdtemp(prefix='sfcverif_c20_')
-    out = {'case': name, 'viol': None, 'unknown': 0, 'outcomes': {}, 'iter_equiv': None, 'header': None}
+    out = {'case': name, 'history': history, 'viol': None, 'unknown': 0, 'outcomes': {}, 'iter_equiv': None, 'header': None}
     try:
         with warnings.catch_warnings():
             warnings.simplefilter('ignore')
             try:
-                gen, fname = generate(name, scratch)
+                gen, fname = generate(name, scratch, history)
                 mod = load(fname)
                 probe = mod.SFCModel()
             except Exception as e:
@@ -148,7 +162,10 @@ def case_run(name):
         try:
             obj = mod.SFCModel()
             obj.main()
-            head = obj.CreateCsvString().split('\n')[0].split('\t')
+            table = obj.CreateCsvString().split('\n')
+            head = table[0].split('\t')
+            if len(table) != gen.MaxTime + 3:
+                raise ValueError('table has %d rows, horizon %d' % (len(table) - 2, gen.MaxTime))
             nonlagged = [v for v, _ in parser.Endogenous] + [v for v, _ in parser.Exogenous]
             ok = set(nonlagged) <= set(head) <= set(nonlagged) | {'k'} and len(set(head)) == len(head) and (head[0] == 't' if 't' in nonlagged else True)   # the time-step counter k may be listed too
             out['header'] = (ok, head)
@@ -171,7 +188,7 @@ text, gain, prev, exo = BLOCKS[name]
 scratch = tempfile.mkdtemp(prefix='sfcverif_c20r_')
 try:
     try:
-        gen, fname = generate(name, scratch); mod = load(fname); obj = mod.SFCModel()
+        gen, fname = generate(name, scratch, %(history)r); mod = load(fname); obj = mod.SFCModel()
     except Exception as e:
         print('generated module cannot be imported/instantiated:', repr(e)); sys.exit(1)
     for n in exo: setattr(obj, n, [0.0] + [vals.get('%%s@%%d' %% (n, k), 1.0) for k in (1, 2)])
@@ -203,8 +220,8 @@ def run(tier, seed):
     chk.encode(IterativeMachineGenerator.ParseString, IterativeMachineGenerator.main, IterativeMachineGenerator.GenerateEquations,
                IterativeMachineGenerator.GenerateFunction, IterativeMachineGenerator.GenerateVarDeclaration, IterativeMachineGenerator.GeneratePackVars,
                IterativeMachineGenerator.GenerateUnpackVars, IterativeMachineGenerator.GenerateFile, sfc_models.base_solver.BaseSolver.CreateCsvString)
-    names = sorted(BLOCKS)
-    chk.bounds = {'blocks': names, 'periods': 2, 'numeric domain': 'previous-period values and both periods of every exogenous path symbolic reals in [-100,100]',
+    names = [(n, h) for n in sorted(BLOCKS) for h in ('once', 'inspect-then-main', 'regenerate')]
+    chk.bounds = {'blocks x generator histories': names, 'periods': 2, 'numeric domain': 'previous-period values and both periods of every exogenous path symbolic reals in [-100,100]',
                   'post': 'every equation of the block holds at the module`s values within gain*tolerance (undamped Jacobi with summed absolute change <= tolerance), '
                           'lags from its own previous period, exogenous from the supplied paths; Iterator body == parser equations (z3 normal forms); header: time axis '
                           'first, every non-lagged variable once'}
@@ -218,24 +235,24 @@ def run(tier, seed):
         chk.count('programs')
         chk.count('paths', o['paths']); chk.count('forks', o['forks'])
         chk.solver_s += o['solver_s']; chk.queries += o['queries']
-        what = 'generated module for block %s' % o['case']
+        what = 'generated module for block %s (generator history: %s)' % (o['case'], o['history'])
         if not o['exhaustive'] or o['unknown'] or o['dunknown']:
             chk.ob('unknown', what)
         else:
-            chk.ob('sat' if o['viol'] else 'unsat', what + ': imports, runs, satisfies the block', distinct=('run', o['case']))
+            chk.ob('sat' if o['viol'] else 'unsat', what + ': imports, runs, satisfies the block', distinct=('run', o['case'], o['history']))
         if o['viol']:
             key = 'k-undefined' if "name 'k' is not defined" in o['viol']['why'] else 'module:%s:%s' % (o['case'], o['viol']['why'][:50])
-            chk.violation(key, what + ': ' + o['viol']['why'], REPLAY % dict(name=o['case'], vals=o['viol']['vals']))
+            chk.violation(key, what + ': ' + o['viol']['why'], REPLAY % dict(name=o['case'], vals=o['viol']['vals'], history=o['history']))
         if o['iter_equiv'] is not None:
-            chk.ob('sat' if o['iter_equiv'] else 'unsat', what + ': Iterator body == parser equations', distinct=('iter', o['case']))
+            chk.ob('sat' if o['iter_equiv'] else 'unsat', what + ': Iterator body == parser equations', distinct=('iter', o['case'], o['history']))
             if o['iter_equiv']:
                 chk.violation('iterator:%s' % o['case'], what + ': Iterator differs from the parser equations: %r' % (o['iter_equiv'][:3],),
-                              REPLAY % dict(name=o['case'], vals={}))
+                              REPLAY % dict(name=o['case'], vals={}, history=o['history']))
         if o['header'] is not None and not o['viol']:
-            chk.ob('unsat' if o['header'][0] else 'sat', what + ': table header', distinct=('header', o['case']))
+            chk.ob('unsat' if o['header'][0] else 'sat', what + ': table header', distinct=('header', o['case'], o['history']))
             if not o['header'][0]:
-                chk.violation('header:%s' % o['case'], what + ': table header %r' % (o['header'][1],),
-                              'import sys\nfrom vf.props.c20 import case_run\no = case_run(%r)\nprint(o["header"])\nsys.exit(0 if o["header"] and o["header"][0] else 1)\n' % o['case'])
+                chk.violation('header:%s:%s' % (o['case'], o['history']), what + ': table header %r' % (o['header'][1],),
+                              'import sys\nfrom vf.props.c20 import case_run\no = case_run(%r)\nprint(o["header"])\nsys.exit(0 if o["header"] and o["header"][0] else 1)\n' % ((o['case'], o['history']),))
         chk.sample({'harness': what, 'paths': o['paths'], 'outcomes': o['outcomes'], 'iterator_differences': o['iter_equiv'], 'header': o['header']}, cap=10)
     chk.witness(chk.counters.get('paths', 0) > 0, 'some generated module ran')
     chk.exhaustive = True
